@@ -408,15 +408,16 @@ deriving Repr, DecidableEq
 
 def cm : Nat × Nat := (Generated.iopCmClass, 1)
 
-/-- `defaults.Connection`: an NCP value above 0xFFFF is taken to be the large (32-bit) form -/
-def ncpShift (ncp : Nat) : Nat := if ncp > 0xFFFF then 16 else 0
-def ncpSize (ncp : Nat) : Nat := if ncp > 0xFFFF then ncp % 65536 else ncp % 512
-def ncpType (ncp : Nat) : Nat := (ncp / 2 ^ (13 + ncpShift ncp)) % 4
+/-- `Connection_decode` tells `defaults.Connection` which layout the service uses: the Large Forward Open's
+32-bit word (flags shifted left by 16, 16-bit size) or the 16-bit word (9-bit size) (repo fix dc32001) -/
+def ncpShift (large : Bool) : Nat := if large then 16 else 0
+def ncpSize (large : Bool) (ncp : Nat) : Nat := if large then ncp % 65536 else ncp % 512
+def ncpType (large : Bool) (ncp : Nat) : Nat := (ncp / 2 ^ (13 + ncpShift large)) % 4
 /-- the NCP re-encoded from its decoded fields (reserved bits are lost) -/
-def ncpNorm (ncp : Nat) : Nat :=
-  let sh := ncpShift ncp
+def ncpNorm (large : Bool) (ncp : Nat) : Nat :=
+  let sh := ncpShift large
   (((ncp / 2 ^ (9 + sh)) % 2) * 2 ^ 9 + ((ncp / 2 ^ (10 + sh)) % 4) * 2 ^ 10
-    + ((ncp / 2 ^ (13 + sh)) % 4) * 2 ^ 13 + ((ncp / 2 ^ (15 + sh)) % 2) * 2 ^ 15) * 2 ^ sh + ncpSize ncp
+    + ((ncp / 2 ^ (13 + sh)) % 4) * 2 ^ 13 + ((ncp / 2 ^ (15 + sh)) % 2) * 2 ^ 15) * 2 ^ sh + ncpSize large ncp
 
 structure FoReq where
   svc : Nat
@@ -519,11 +520,12 @@ def foFailure (fo : FoReq) : Bytes :=
 /-- `Connection_Manager.forward_open` and the reply `produce` -/
 def forwardOpen (st : St) (rnd : Rnd) (fo : FoReq) : St × Bytes :=
   -- defaults.Connection( **decoding ) asserts 0 < size
-  if ncpSize fo.otNcp = 0 ∨ ncpSize fo.toNcp = 0 then (st, foFailure fo) else
-  let otId := if ncpType fo.otNcp = 2 then rnd.otId else fo.otId     -- point-to-point: the target picks
-  let toId := if ncpType fo.toNcp = 1 then rnd.toId else fo.toId     -- multicast: the target picks
-  let entry : Fwd := { connId := otId, serial := fo.serial, otNcp := ncpNorm fo.otNcp, otRpi := fo.otRpi,
-                       toNcp := ncpNorm fo.toNcp, toRpi := fo.toRpi, tct := fo.tct, cpath := fo.cpath }
+  let large := fo.svc == Generated.iopSvcFwdOpenLarge
+  if ncpSize large fo.otNcp = 0 ∨ ncpSize large fo.toNcp = 0 then (st, foFailure fo) else
+  let otId := if ncpType large fo.otNcp = 2 then rnd.otId else fo.otId     -- point-to-point: the target picks
+  let toId := if ncpType large fo.toNcp = 1 then rnd.toId else fo.toId     -- multicast: the target picks
+  let entry : Fwd := { connId := otId, serial := fo.serial, otNcp := ncpNorm large fo.otNcp, otRpi := fo.otRpi,
+                       toNcp := ncpNorm large fo.toNcp, toRpi := fo.toRpi, tct := fo.tct, cpath := fo.cpath }
   let ok := [fo.svc + 128, 0, 0, 0] ++ Bytes.le 4 otId ++ Bytes.le 4 toId ++ Bytes.le 2 fo.serial
     ++ Bytes.le 2 fo.vendor ++ Bytes.le 4 fo.oserial ++ Bytes.le 4 fo.otRpi ++ Bytes.le 4 fo.toRpi ++ [0, 0]
   match st.fwds.find? (fun f => f.connId == otId) with
